@@ -40,11 +40,19 @@ class Log:
                 elif t == "X" and self.status is None and len(w) > 1 and w[1] in ("done", "deadlock", "step-budget-exhausted"):
                     self.status = w[1]
                     self.meta = dict(x.split("=") for x in w[2:] if "=" in x)
+                elif t == "P" and len(w) >= 3:
+                    self.events.append({"t": "P", "name": w[1], "hex": w[2], "ln": ln})
                 elif t == "B":
                     self.events.append({"t": "B", "tid": int(w[1]), "kind": w[2], "obj": w[3] if len(w) > 3 else "", "ln": ln})
 
     def off(self, struct, field):
         return self.offs[(struct, field)][0]
+
+    @staticmethod
+    def snap_int(hexs, off, size):
+        """little-endian unsigned integer field out of a `P` snapshot"""
+        b = bytes.fromhex(hexs[2 * off: 2 * (off + size)])
+        return int.from_bytes(b, "little")
 
 
 def split_loc(loc):
